@@ -212,7 +212,7 @@ def natDigits (n : Nat) : Bytes := natDigitsAux (n + 1) n []
 
 def ceilDiv (a b : Nat) : Nat := if b == 0 then 0 else (a + b - 1) / b
 
-/-- inputs of `jobScript`, resources as whole numbers -/
+/-- inputs of `jobScript` -/
 structure JobIn where
   tmpl : Bytes
   fqname : Bytes
@@ -224,9 +224,9 @@ structure JobIn where
   envs : List (Bytes × Bytes)
   cmd : Bytes
   argv : List Bytes
-  threads : Nat       -- request; 0 = default
-  memGB : Nat         -- request; 0 = default
-  vmemGB : Nat        -- request; 0 = mem + extra
+  threads : Float     -- request (float64, as in JobResources); 0 = default, negative = its absolute value
+  memGB : Float       -- request; 0 = default, negative = its absolute value
+  vmemGB : Float      -- request; < 1 = mem + extra
   threadsPerJob : Nat
   memGBPerJob : Nat
   extraVmemGB : Nat
@@ -240,18 +240,48 @@ structure JobIn where
 def threadsKey : Bytes :=   -- `__MRO_THREADS__`
   [0x5F, 0x5F, 0x4D, 0x52, 0x4F, 0x5F, 0x54, 0x48, 0x52, 0x45, 0x41, 0x44, 0x53, 0x5F, 0x5F]
 
-/-- `GetSystemReqs` followed by the arithmetic at the head
-of `jobScript`: (threads, memGB, vmemGB, memGBPerThread, vmemGBPerThread) -/
-def resources (j : JobIn) : Nat × Nat × Nat × Nat × Nat :=
-  let t0 := if j.threads == 0 then j.threadsPerJob else j.threads
-  let m := if j.memGB == 0 then j.memGBPerJob else j.memGB
-  let v := if j.vmemGB < 1 then m + j.extraVmemGB else j.vmemGB
-  let t1 := if j.memGBPerCore > 0 && m > t0 * j.memGBPerCore then ceilDiv m j.memGBPerCore else t0
+/-- the numbers `jobScript` substitutes -/
+structure Res where
+  threads : Nat
+  memGB : Nat
+  memMB : Nat
+  memKB : Nat
+  memB : Nat
+  vmemGB : Nat
+  vmemMB : Nat
+  vmemKB : Nat
+  vmemB : Nat
+  memPerThread : Nat
+  vmemPerThread : Nat
+
+/-- Go's `int(math.Ceil(x))` for `0 ≤ x < 2^63` -/
+def ceilNat (x : Float) : Nat := (Float.ceil x).toUInt64.toNat
+
+/-- `GetSystemReqs` followed by the arithmetic at the head of `jobScript`, in float64 as the
+code does it (Lean's `Float` is the same IEEE double) -/
+def resources (j : JobIn) : Res :=
+  let thr0 : Float :=
+    if j.threads == 0 then j.threadsPerJob.toFloat else if j.threads < 0 then -j.threads else j.threads
+  let m0 : Float := if j.memGB < 0 then -j.memGB else j.memGB
+  let m1 : Float := if m0 == 0 then j.memGBPerJob.toFloat else m0
+  let v : Float := if j.vmemGB < 1 then m1 + j.extraVmemGB.toFloat else j.vmemGB
+  let thr1 : Float :=
+    if j.memGBPerCore > 0 then
+      (let tfm := m1 / j.memGBPerCore.toFloat
+       if tfm > thr0 then tfm else thr0)
+    else thr0
   -- verifyJobManager: threading is enabled iff the template mentions __MRO_THREADS__
-  let t := if containsB j.tmpl threadsKey then t1 else 1
-  let vpt := max j.memGBPerCore (ceilDiv v t)
-  if j.alwaysVmem && v > m then (t, v, v, vpt, vpt)
-  else (t, m, v, max j.memGBPerCore (ceilDiv m t), vpt)
+  let thr : Float := if containsB j.tmpl threadsKey then Float.ceil thr1 else 1
+  let vpt := max j.memGBPerCore (ceilNat (v / thr))
+  let useV := j.alwaysVmem && v > m1
+  let m : Float := if useV then v else m1
+  let mpt := if useV then vpt else max j.memGBPerCore (ceilNat (m1 / thr))
+  { threads := ceilNat thr,
+    memGB := ceilNat m, memMB := ceilNat (m * 1024), memKB := ceilNat (m * 1024 * 1024),
+    memB := ceilNat (m * 1024 * 1024 * 1024),
+    vmemGB := ceilNat v, vmemMB := ceilNat (v * 1024), vmemKB := ceilNat (v * 1024 * 1024),
+    vmemB := ceilNat (v * 1024 * 1024 * 1024),
+    memPerThread := mpt, vmemPerThread := vpt }
 
 /-- `threadEnvs`: every thread variable gets the thread count, the job's own
 environment overrides it (a Go map: keys distinct) -/
@@ -278,34 +308,30 @@ def bytesOf (s : String) : Bytes := s.toList.map fun c => c.toNat.toUInt8
 
 /-- the parameter table of `jobScript`, in source order: name, kind, value -/
 def params (tbl : EscTable) (j : JobIn) : List (String × Kind × Bytes) :=
-  let t := (resources j).1
-  let m := (resources j).2.1
-  let v := (resources j).2.2.1
-  let mpt := (resources j).2.2.2.1
-  let vpt := (resources j).2.2.2.2
+  let r := resources j
   let n (x : Nat) := natDigits x
   [ ("JOB_NAME", .raw, j.fqname ++ [0x2E] ++ j.shellName),
-    ("THREADS", .int, n t),
+    ("THREADS", .int, n r.threads),
     ("STDOUT", .quoted, quote tbl j.stdout),
     ("STDERR", .quoted, quote tbl j.stderr),
     ("JOB_WORKDIR", .quoted, quote tbl j.workdir),
-    ("CMD", .cmd, formatArgs tbl (mergeEnvs j.threadEnvs (n t) j.envs) j.cmd j.argv),
-    ("MEM_GB", .int, n m),
-    ("MEM_MB", .int, n (m * 1024)),
-    ("MEM_KB", .int, n (m * 1024 * 1024)),
-    ("MEM_B", .int, n (m * 1024 * 1024 * 1024)),
-    ("MEM_GB_PER_THREAD", .int, n mpt),
-    ("MEM_MB_PER_THREAD", .int, n (mpt * 1024)),
-    ("MEM_KB_PER_THREAD", .int, n (mpt * 1024 * 1024)),
-    ("MEM_B_PER_THREAD", .int, n (mpt * 1024 * 1024 * 1024)),
-    ("VMEM_GB", .int, n v),
-    ("VMEM_MB", .int, n (v * 1024)),
-    ("VMEM_KB", .int, n (v * 1024 * 1024)),
-    ("VMEM_B", .int, n (v * 1024 * 1024 * 1024)),
-    ("VMEM_GB_PER_THREAD", .int, n vpt),
-    ("VMEM_MB_PER_THREAD", .int, n (vpt * 1024)),
-    ("VMEM_KB_PER_THREAD", .int, n (vpt * 1024 * 1024)),
-    ("VMEM_B_PER_THREAD", .int, n (vpt * 1024 * 1024 * 1024)),
+    ("CMD", .cmd, formatArgs tbl (mergeEnvs j.threadEnvs (n r.threads) j.envs) j.cmd j.argv),
+    ("MEM_GB", .int, n r.memGB),
+    ("MEM_MB", .int, n r.memMB),
+    ("MEM_KB", .int, n r.memKB),
+    ("MEM_B", .int, n r.memB),
+    ("MEM_GB_PER_THREAD", .int, n r.memPerThread),
+    ("MEM_MB_PER_THREAD", .int, n (r.memPerThread * 1024)),
+    ("MEM_KB_PER_THREAD", .int, n (r.memPerThread * 1024 * 1024)),
+    ("MEM_B_PER_THREAD", .int, n (r.memPerThread * 1024 * 1024 * 1024)),
+    ("VMEM_GB", .int, n r.vmemGB),
+    ("VMEM_MB", .int, n r.vmemMB),
+    ("VMEM_KB", .int, n r.vmemKB),
+    ("VMEM_B", .int, n r.vmemB),
+    ("VMEM_GB_PER_THREAD", .int, n r.vmemPerThread),
+    ("VMEM_MB_PER_THREAD", .int, n (r.vmemPerThread * 1024)),
+    ("VMEM_KB_PER_THREAD", .int, n (r.vmemPerThread * 1024 * 1024)),
+    ("VMEM_B_PER_THREAD", .int, n (r.vmemPerThread * 1024 * 1024 * 1024)),
     ("ACCOUNT", .raw, j.account),
     ("RESOURCES", .raw, mappedResources j) ]
 
@@ -437,7 +463,7 @@ def expectedToks (g : Given) (ls : List SegLine) : List Tok :=
   joinToks (ls.map fun l => lineToks g (shapeOf l))
 
 def givenOf (tbl : EscTable) (j : JobIn) : Given :=
-  { envs := sortEnvs tbl (mergeEnvs j.threadEnvs (natDigits (resources j).1) j.envs),
+  { envs := sortEnvs tbl (mergeEnvs j.threadEnvs (natDigits (resources j).threads) j.envs),
     cmd := j.cmd, argv := j.argv, stdout := j.stdout, stderr := j.stderr, workdir := j.workdir }
 
 /-! ## Well-formed segmentation: when `renderScript` IS the replacer
